@@ -12,6 +12,7 @@ import (
 	"context"
 	"fmt"
 	"io"
+	"os"
 	"sort"
 	"sync"
 	"testing"
@@ -159,6 +160,11 @@ func TestC04(t *testing.T) {
 	s.swarmCases()
 	s.streamRaceCases()
 	s.socketSweep()
+	if os.Getenv("VERIF_RACE") != "1" {
+		s.listenDuringClose()
+		s.gatedInbound()
+		s.gatedBareQUIC()
+	}
 	r.Require("upgrade_faults_fired", 300)
 	r.Require("upgrade_failed_one_side", 200)
 	r.Require("upgrade_completed_despite_fault", 1)
